@@ -104,6 +104,17 @@ func (ds *dataStore) moveStoreKeyUnlocked(srcKeyName, destKeyName string, dds *d
 		return
 	}
 
+	if ds == dds && srcKeyName == destKeyName {
+		// renaming a key onto itself changes nothing (in particular it is not a
+		// modification a WATCH would notice); RENAMENX sees its destination existing
+		if overwrite {
+			newSk = sk
+		} else {
+			destExists = true
+		}
+		return
+	}
+
 	if !overwrite {
 		_, destExists = dds.getLiveStoreKey(destKeyName)
 		if destExists {
